@@ -24,12 +24,12 @@ type Case struct {
 	ExecShape string      `json:"exec_shape"`
 	// Exec2: a sub-mask of Exec: the instruction is run a second time with only these lanes
 	// enabled; every lane whose own EXEC bit is the same in the two runs must end up the same
-	Exec2 uint64 `json:"exec2"`
-	PermKind  string      `json:"perm_kind"`
-	Perm      []uint8     `json:"perm"` // lane i of the input becomes lane Perm[i]
-	VCC       uint64      `json:"vcc"`
-	SCC       uint8       `json:"scc"`
-	M0        uint32      `json:"m0"`
+	Exec2    uint64  `json:"exec2"`
+	PermKind string  `json:"perm_kind"`
+	Perm     []uint8 `json:"perm"` // lane i of the input becomes lane Perm[i]
+	VCC      uint64  `json:"vcc"`
+	SCC      uint8   `json:"scc"`
+	M0       uint32  `json:"m0"`
 	// MaskIn / MaskOut: initial content of the SGPR pair that the instruction
 	// reads as a per-lane mask / overwrites with a per-lane mask.
 	MaskIn  uint64 `json:"mask_in"`
